@@ -176,6 +176,7 @@ class CapturePrinter:
 
     def __init__(self):
         self.lines = []
+        self.named = {}   # stream name -> lines ("default" for plain print())
 
     @property
     def lines_printed(self):
@@ -190,3 +191,4 @@ class CapturePrinter:
 
     def print_to(self, name, string):
         self.lines.append(string)
+        self.named.setdefault("default" if name is None else str(name), []).append(string)
